@@ -70,6 +70,7 @@ func ZZVerifC08LoopWide() {
 
 func zzLoop(pBound, nShapes, maxC, maxPR int) {
 	nd.Schedule(pBound)
+	nd.Races()
 	fs, _ := memfs.NewFilespace()
 	// tree shape: 0: f        1: f, d/g      2: d/g, d/h      3: empty     4: d/ (empty dir), f
 	shape := nd.Choose("shape", nShapes)
